@@ -67,7 +67,7 @@ PROPS["C12"] = dict(
     level_note="Render-level clauses: theorem writer_failure_prefix (Proofs/WriterPrefix.v) on the renderer model, tied to the code by the tmpl stream, where the writer fails at EVERY write index of the render in three ways (persistent, one-shot, accept-and-fail).",
 )
 PROPS["C13"] = dict(
-    level="proof", rule=EVAL_RULE,
+    level="proof", rule=EVAL_RULE, allowed_axioms=FLOCQ_AXIOMS,
     streams=[dict(name="eval", family="eval", quick=5000, thorough=300000, nontrivial=r".")],
     trusted_base=TB_EXP + ["reflect (method sets, FieldByName through embedded structs, unexported fields) is modelled, validated by the correspondence run, not verified"],
     modelled=MOD_EXP, assumptions=["string-keyed maps; struct types from the harness' fixed family"],
